@@ -49,10 +49,12 @@ Theorem C19_escape_path_errors : forall rt p e,
   escape_path rt p = Err e -> exists path key, e = ECustomOptionNotProvided path key.
 Proof. exact escape_path_opt. Qed.
 
-(* the repaired defect: a section that is a member of its own sub-group.  The entry is never
+(* the repaired defect: a section that is a member of its own sub-group.  An entry that is not a
+   group (a group leaves the expansion of sub-groups to its files: [subgroups_for]) is never
    generated ... *)
 Theorem C19_cycle_never_ok : forall rt sty cfg seg sections f n stack s others base ws,
   reference_partial cfg = false ->
+  fi_kind f <> KGroup ->
   In s (sections_here f s sections) ->
   lookup s (sections_subgroups seg) = Some others -> In s others ->
   forall o, emit_sff rt sty cfg seg sections f n stack s base ws <> Ok o.
@@ -61,12 +63,30 @@ Proof. exact self_cycle_never_ok. Qed.
 (* ... and the value returned is the cycle error when nothing fails before the cycle is met *)
 Theorem C19_cycle_detected_general : forall rt sty cfg seg sections f n stack s rest base ws,
   reference_partial cfg = false ->
+  fi_kind f <> KGroup ->
   fi_section_order f = [] ->
   lookup s (sections_subgroups seg) = Some (s :: rest) ->
   mem_str s stack = false ->
   (exists o, emit_file_of rt sty cfg seg sections f base s ws = Ok o) ->
   emit_sff rt sty cfg seg sections f (S (S n)) stack s base ws = Err (ESubgroupCycle (sg_name seg) s).
 Proof. exact self_cycle_detected. Qed.
+
+(* the same two, for any entry, in terms of the table the entry consults (empty for a group) *)
+Theorem C19_cycle_never_ok_for : forall rt sty cfg seg sections f n stack s others base ws,
+  reference_partial cfg = false ->
+  In s (sections_here f s sections) ->
+  lookup s (subgroups_for seg f) = Some others -> In s others ->
+  forall o, emit_sff rt sty cfg seg sections f n stack s base ws <> Ok o.
+Proof. exact self_cycle_never_ok_for. Qed.
+
+Theorem C19_cycle_detected_for : forall rt sty cfg seg sections f n stack s rest base ws,
+  reference_partial cfg = false ->
+  fi_section_order f = [] ->
+  lookup s (subgroups_for seg f) = Some (s :: rest) ->
+  mem_str s stack = false ->
+  (exists o, emit_file_of rt sty cfg seg sections f base s ws = Ok o) ->
+  emit_sff rt sty cfg seg sections f (S (S n)) stack s base ws = Err (ESubgroupCycle (sg_name seg) s).
+Proof. exact self_cycle_detected_for. Qed.
 
 Theorem C19_cycle_detected : forall rt sty cfg seg sections f s base ws p,
   reference_partial cfg = false ->
@@ -78,7 +98,8 @@ Theorem C19_cycle_detected : forall rt sty cfg seg sections f s base ws p,
 Proof. exact cycle_detected_object. Qed.
 
 (* when every edge of the expansion graph (for this entry and the entries below it) goes down a
-   rank, no cycle error is produced *)
+   rank, no cycle error is produced; [chain_decreasing] reads the table through [subgroups_for]:
+   nothing is asked of a group itself, only of the files below it *)
 Theorem C19_acyclic_no_cycle_error : forall rt sty cfg seg sections rank f,
   chain_decreasing_deep seg sections rank f ->
   forall section base ws s c,
@@ -136,6 +157,17 @@ Example C19_ex_cycle_hyps :
   end.
 Proof. vm_compute. repeat split; reflexivity. Qed.
 
+(* the hypothesis "not a group" of C19_cycle_never_ok is needed: a group does not expand sub-groups
+   itself, so a group without files generates nothing, without error, whatever the table says *)
+Example C19_ex_group_leaves_expansion_to_files :
+  fi_kind ex19_empty_group = KGroup /\
+  In ".text"%string (sections_here ex19_empty_group ".text" [".text"%string]) /\
+  lookup ".text" (sections_subgroups ex19_cyclic_seg) = Some [".text"%string] /\
+  subgroups_for ex19_cyclic_seg ex19_empty_group = [] /\
+  emit_sff ex19_rt Splat cfg_normal ex19_cyclic_seg [".text"%string] ex19_empty_group
+           (chain_fuel ex19_cyclic_seg) [] ".text" "" ws0 = Ok ([], ws0).
+Proof. vm_compute. repeat split; try reflexivity. left; reflexivity. Qed.
+
 Example C19_ex_two_segments_single_mode :
   ex19_normal ex19_two_single = Some (EInvalidSegmentCount 2).
 Proof. vm_compute. reflexivity. Qed.
@@ -187,6 +219,8 @@ Print Assumptions C19_errors_are_values_partial.
 Print Assumptions C19_escape_path_errors.
 Print Assumptions C19_cycle_never_ok.
 Print Assumptions C19_cycle_detected_general.
+Print Assumptions C19_cycle_never_ok_for.
+Print Assumptions C19_cycle_detected_for.
 Print Assumptions C19_cycle_detected.
 Print Assumptions C19_acyclic_no_cycle_error.
 Print Assumptions C19_balanced.
